@@ -231,6 +231,9 @@ def setitem(I, base, idx, value):
 
 
 def delitem(I, base, idx):
+    base = I.unwrap(base)  # an optional value that the code has already tested against None
+    if base is None:
+        I.raise_(TypeError)
     if isinstance(base, PDict):
         if I.is_concrete(idx):
             if idx not in base.items:
@@ -1145,7 +1148,17 @@ def fstring(I, node, frame):
                 val = I.ev(v.value, frame)
             except RaiseSig:
                 raise
-            if v.format_spec is not None or v.conversion not in (-1,):
+            # conversions: !s is str(), which is what an unconverted field does for the kinds handled below;
+            # !r / !a and format specs are evaluated natively on concrete values only
+            if v.format_spec is not None or v.conversion not in (-1, 115):
+                if I.is_concrete(val) and not isinstance(val, (PList, PDict)):
+                    try:
+                        spec = "" if v.format_spec is None else "".join(x.value for x in v.format_spec.values if isinstance(x, ast.Constant))
+                        conv = {114: repr, 97: ascii, 115: str, -1: (lambda z: z)}[v.conversion]
+                        parts.append(format(conv(I.lower(val) if hasattr(I, "lower") else val), spec))
+                        continue
+                    except Exception:
+                        return Opaque("fstring")
                 return Opaque("fstring")
             if isinstance(val, str):
                 parts.append(val)
